@@ -24,8 +24,10 @@ import os
 
 from ..core import Ctx, key_of
 from ..dep import data, full
-from ..model import AnchorMissing, const_str, dotted, norm, own_nodes
+from ..model import AnchorMissing, Inconclusive, const_str, dotted, norm, own_nodes
+from ..order import local_resolver
 from .c04 import OPTION_KEYS
+from .common import key_of_text
 
 META = {
     "level": "other",
@@ -50,7 +52,74 @@ def _is_idish(e) -> bool:
     return False
 
 
+def per_text_objects_rule(ctx: Ctx, rid: str):
+    """What ProjectFileParser.parse() builds a project with is either created for that one text, or carries nothing over: the
+    tree transformer and the model builder are constructed inside parse(); if one of them is kept on the parser object, every
+    field of its class that a method writes must be re-initialised by the entry method before it is used."""
+    repo = ctx.repo
+    parse = repo.func("ProjectFileParser.parse")
+    res = local_resolver(parse.node)
+    init = repo.func("ProjectFileParser.__init__") if repo.has_func("ProjectFileParser.__init__") else None
+    n = 0
+    for c in own_nodes(parse):
+        if not (isinstance(c, ast.Call) and isinstance(c.func, ast.Attribute) and c.func.attr in ("transform", "build")):
+            continue
+        recv = c.func.value
+        vals = res(recv) if isinstance(recv, ast.Name) else [recv]
+        for v in vals or [recv]:
+            n += 1
+            if isinstance(v, ast.Call) and isinstance(v.func, ast.Name) and v.func.id[:1].isupper():
+                ctx.ob(rid, f"{parse.qual}: {norm(c)[:50]} on a {v.func.id} created for this text", (parse, c), True,
+                       "nothing of an earlier text can be in it")
+                continue
+            cls_name = None
+            if isinstance(v, ast.Attribute) and isinstance(v.value, ast.Name) and v.value.id == "self" and init is not None:
+                for a in own_nodes(init):
+                    if isinstance(a, (ast.Assign, ast.AnnAssign)) and a.value is not None and isinstance(a.value, ast.Call) and isinstance(a.value.func, ast.Name) \
+                            and any(norm(t) == norm(v) for t in (a.targets if isinstance(a, ast.Assign) else [a.target])):
+                        cls_name = a.value.func.id
+            if cls_name is None or cls_name not in repo.classes:
+                raise Inconclusive(f"{parse.qual}: receiver of {norm(c)[:40]} is neither constructed in parse() nor a field set to a known class")
+            ci = repo.cls(cls_name)
+            entry = ci.methods.get(c.func.attr)
+            written = {}
+            for mname, m in ci.methods.items():
+                for x in own_nodes(m):
+                    tg = []
+                    if isinstance(x, (ast.Assign, ast.AnnAssign, ast.AugAssign)):
+                        tg = x.targets if isinstance(x, ast.Assign) else [x.target]
+                    elif isinstance(x, ast.Call) and isinstance(x.func, ast.Attribute) and x.func.attr in (
+                            "append", "add", "update", "extend", "setdefault", "insert", "pop", "remove", "discard"):
+                        tg = [x.func.value]
+                    for t in tg:
+                        while isinstance(t, ast.Subscript):
+                            t = t.value
+                        if isinstance(t, ast.Attribute) and isinstance(t.value, ast.Name) and t.value.id == "self":
+                            written.setdefault(t.attr, m)
+            reset = set()
+            if entry is not None:
+                for x in entry.node.body:
+                    for y in ast.walk(x) if not isinstance(x, (ast.If, ast.For, ast.While, ast.Try, ast.With)) else []:
+                        if isinstance(y, (ast.Assign, ast.AnnAssign)):
+                            for t in (y.targets if isinstance(y, ast.Assign) else [y.target]):
+                                if isinstance(t, ast.Attribute) and norm(t.value) == "self":
+                                    reset.add(t.attr)
+                        elif isinstance(y, ast.Call) and isinstance(y.func, ast.Attribute) and y.func.attr == "clear" \
+                                and isinstance(y.func.value, ast.Attribute) and norm(y.func.value.value) == "self":
+                            reset.add(y.func.value.attr)
+            stale = sorted(a for a in written if a not in reset)
+            ok = not stale
+            ctx.ob(rid, f"{parse.qual}: {norm(c)[:50]} on the {cls_name} kept in {norm(v)}", (parse, c), ok,
+                   f"every field {cls_name} writes is re-initialised at the top of {c.func.attr}()" if ok else
+                   f"the {cls_name} object outlives the text and its field(s) {stale} are written while a text is processed but not re-initialised "
+                   f"at the top of {c.func.attr}(): what an earlier text left there (pending links, flags) is applied to the next one",
+                   key=key_of_text(rid, "ProjectFileParser.parse", f"{cls_name} state {','.join(stale)}"))
+    if n < 2:
+        raise AnchorMissing(f"{parse.qual}: transform / build calls not found ({n})")
+
+
 def run_extra(ctx: Ctx):
+    per_text_objects_rule(ctx, "R15.10")
     # ---------------------------------------------------------------- R15.9 answers never come from state that outlives the question
     from .common import process_state_rule
     process_state_rule(ctx, "R15.9", [ctx.repo.func("ProjectFileParser.parse")],
@@ -211,6 +280,44 @@ def run(ctx: Ctx):
            "the macro pre-pass scans text that still contains comments the grammar ignores: a `now <date>` or a macro definition inside a "
            "comment changes the expansion, so adding a comment changes the schedule",
            key="R15.7|MacroProcessor.process|comments stripped first")
+    # a stripper's short cut (`return text` as it came) is taken only when the text can hold no comment of any kind
+    from ..model import Inconclusive as _Inc
+    from .common import enclosing_ifs as _eifs
+    for s_ in strips:
+        fname = next(norm(c.func) for c in ast.walk(s_.ast) if isinstance(c, ast.Call) and norm(c.func) in stripper_names)
+        if not repo.has_func(fname):
+            continue
+        sf = repo.func(fname)
+        p0 = sf.params[0] if sf.params else None
+        for r in own_nodes(sf):
+            if not (isinstance(r, ast.Return) and isinstance(r.value, ast.Name) and r.value.id == p0):
+                continue
+            guards = [(i, b) for (i, b) in _eifs(r, sf.node)]
+            absent, empty, unknown = set(), False, []
+            for i, b in guards:
+                conj = i.test.values if (isinstance(i.test, ast.BoolOp) and isinstance(i.test.op, ast.And)) else [i.test]
+                if b != "T":
+                    unknown.append(norm(i.test))
+                    continue
+                for t_ in conj:
+                    if isinstance(t_, ast.Compare) and len(t_.ops) == 1 and isinstance(t_.ops[0], ast.NotIn) and isinstance(t_.left, ast.Constant) \
+                            and isinstance(t_.left.value, str) and norm(t_.comparators[0]) == p0:
+                        absent.add(t_.left.value)
+                    elif norm(t_) in (f"not {p0}", f"{p0} == ''", f'{p0} == ""', f"len({p0}) == 0"):
+                        empty = True
+                    else:
+                        unknown.append(norm(t_))
+            if empty:
+                continue
+            if unknown and not absent:
+                raise _Inc(f"{sf.qual}: short cut `return {p0}` under {unknown}: guard shape not interpreted")
+            uncovered = sorted(k for k in need if not any(g and g in k for g in absent))
+            ok = not uncovered
+            ctx.ob("R15.7", f"{sf.qual}: short cut `return {p0}` when none of {sorted(absent)} occurs", (sf, r), ok,
+                   "a text without these characters holds no comment of any kind" if ok else
+                   f"the short cut returns the text untouched although it can still hold {uncovered} comments: a macro definition or a `now` "
+                   "inside such a comment is then picked up by the pre-pass, so adding a comment changes the schedule",
+                   key=key_of("R15.7", sf, None, "short cut covers every comment kind"))
     # ---------------------------------------------------------------- R15.8 built-in values are found wherever they stand in the text
     # whitespace (line breaks) is not significant in the project text: a pattern that extracts `now` or the project header for
     # the built-in macros may not be anchored to the beginning / end of a line
@@ -256,7 +363,7 @@ def run(ctx: Ctx):
         raise AnchorMissing(f"_extract_project_dates: {n_pat} literal patterns found")
     # ---------------------------------------------------------------- R15.6 task identity
     from .common import local_id_identity_rule
-    local_id_identity_rule(ctx, "R15.6", ("parser/tjp_parser.py", "parser/macro_processor.py"),
+    local_id_identity_rule(ctx, "R15.6", ("parser/tjp_parser.py", "parser/macro_processor.py", "core/project.py", "core/task_scenario.py", "core/task.py"),
                            "the same link spelled by absolute path and by relative reference then resolves differently")
     ctx.floor("R15.2", 2)
     ctx.floor("R15.4", 25)
